@@ -8,10 +8,11 @@ PROP = dict(
                        "Comdex.C08.totalBorrowed_eq", "Comdex.C08.totalStable_eq",
                        "Comdex.C08.borrow_respects_ltv", "Comdex.C08.draw_respects_ltv", "Comdex.C08.borrow_msg_cases",
                        "Comdex.C08.ltv_exact", "Comdex.C08.interpool_borrow_respects_transit_ltv",
-                       "Comdex.C08.borrow_respects_ltv_pledged_partial", "Comdex.C08.borrow_ltv_foreign_pair_counterexample",
+                       "Comdex.C08.borrow_respects_ltv_pledged",
                        "Comdex.C08.borrow_requires_pool_funds", "Comdex.C08.draw_requires_pool_funds",
                        "Comdex.C08.withdraw_never_releases_pledged", "Comdex.C08.closeLend_never_releases_pledged"],
     harness_tests=["TestC08"],
+    monitors=["total_lend", "total_lend_orphaned", "total_borrowed", "total_stable", "ltv", "pool_funds", "pledged_safe"],
     trusted_base=[KERNEL_TB, HARNESS_TB, DEC_TB,
                   "Model/Lend.lean is hand-written from x/lend/keeper/{keeper,funds,rates,iter}.go and x/liquidationsV2/keeper/liquidate.go:360-404; "
                   "tied by delivering generated messages to the real app (ValidateBasic + MsgServiceRouter handler on a cache context) and comparing "
@@ -41,9 +42,10 @@ META = dict(
          "and every history of user messages the published total lent equals the sum over lend positions of availableToBorrow plus collateral "
          "pledged to borrows not handed over to liquidation; total borrowed / stable borrowed equal the principal sums (hand-overs included); "
          "an accepted borrow or draw has Dec ratio <= LTV (with an exact-rational corollary) and is covered by the pool's balance; withdraw / "
-         "close never exceed availableToBorrow and never change a borrow record. Two defects of the real code are reproduced and carried as "
-         "kernel-checked counterexamples: a liquidation hand-over deletes a lend position that still has availableToBorrow (total lent no longer "
-         "matches), and BorrowAsset accepts a pair registered for another asset of the pool, valuing the pledged cTokens at the wrong price.",
+         "close never exceed availableToBorrow and never change a borrow record. One defect of the real code is reproduced and carried as a "
+         "kernel-checked counterexample and known finding D19: a liquidation hand-over deletes a lend position that still has availableToBorrow "
+         "(total lent no longer matches). A second one (BorrowAsset accepted a pair registered for another asset of the pool, valuing the pledged "
+         "cTokens at the wrong price) was found by this check and is repaired in the tree; the model carries the guard and a regression example.",
     note="Trusted: Lean kernel, the Dec model (differentially tested), the hand-written model as far as the correspondence run exercises it. "
          "Interest and reward amounts are inputs; ESM kill switch / pool depreciation, the liquidation decision and the auction are outside the model.",
 )
